@@ -8,7 +8,9 @@ judge       : reference graph of the written file (Spec) vs the graph of the ori
               renumbering; own numbers; nothing else changed relative to the unedited write
 histories   : number assignments, interleaved with reference-preserving operations that are not number assignments
               (c04lib.NEUTRAL: add_cell_children_to_problem, re-append, geometry edits that add a leaf); model
-              Edit/stepE/runE, theorems C04_relink_frame / C04_wf_stepE / C04_history_neutral (Props/C04Neutral.lean)
+              Edit/stepE/runE, theorems C04_relink_frame / C04_wf_stepE / C04_history_neutral (Props/C04Neutral.lean);
+              write_to_file calls in between (c04lib.WRITE): every file written is judged against the history up to it
+              (c04lib.views); model Item/stepW/runW, theorem C04_history_writes
 """
 
 import glob
@@ -43,6 +45,7 @@ THEOREMS = [
     "C04_relink_frame",
     "C04_wf_stepE",
     "C04_history_neutral",
+    "C04_history_writes",
 ]
 
 FEATURES = {"transforms", "periodic", "boundary", "universes", "complements", "thermal", "data_placement", "shortcuts", "message"}
@@ -332,7 +335,12 @@ def run(chk):
         "and take no reference away interleaved and (mostly) placed between the last renumbering and the write: "
         "problem.add_cell_children_to_problem(), the last member of problem.cells/surfaces/transforms removed and appended again, "
         "cell.geometry = cell.geometry & +surface / & -surface / & ~cell (the 'before' of such a case is the problem with these operations "
-        "alone); on the four small problems every swap inside a kind followed by each kind of such operation. Non-trivial = at least one assignment was accepted and the problem "
+        "alone); on the four small problems every swap inside a kind followed by each kind of such operation; and histories with "
+        "problem.write_to_file() calls in between (an object leaves its number, WRITE, returns to it; the number just left is handed on to another "
+        "object of the kind; swaps / rotations / permutations in stages with a write after each stage; writes at random places of every other "
+        "pattern; everything +1000, WRITE, and back): EVERY file written is judged against the history up to that write and compared with the "
+        "model's write of the state at that point; on the four small problems every return / hand-on / staged swap across writes for every kind "
+        "and (ordered) pair of objects. Non-trivial = at least one assignment was accepted and the problem "
         "has at least one modelled reference; distinct = distinct (text, history)."
     )
     chk.assumptions = [
